@@ -30,7 +30,18 @@ comps=$(grep '^+++ b/' $OUT/patch.diff | sed 's#^+++ b/##' | awk -F/ '{print $1"
 suite=0
 for c in $comps; do
   echo "== existing tests ./$c/... with patch" >>$LOG
-  $GO test -vet=off -count=1 -timeout 25m ./$c/... 2>&1 | grep -v "no test files" >>$LOG; [ ${PIPESTATUS[0]} -ne 0 ] && suite=1
+  $GO test -vet=off -count=1 -timeout 25m ./$c/... 2>&1 | grep -v "no test files" > $OUT/.suite.$$; cat $OUT/.suite.$$ >>$LOG
+  failing=$(grep -E "^(FAIL|---)" $OUT/.suite.$$ | grep -E "^FAIL\s" | awk '{print $2}' | sort -u)
+  if [ -n "$failing" ]; then
+    # a package that fails identically on the clean tree (envtest binaries are not installed here) is not the patch's doing
+    git apply -R $OUT/patch.diff
+    for pkg in $failing; do
+      echo "== failing package $pkg on the CLEAN tree" >>$LOG
+      if $GO test -vet=off -count=1 -timeout 25m $pkg >>$LOG 2>&1; then suite=1; echo "   passes clean => the patch breaks an existing test" >>$LOG; else echo "   fails on the clean tree too (environmental)" >>$LOG; fi
+    done
+    git apply $OUT/patch.diff
+  fi
+  rm -f $OUT/.suite.$$
 done
 cd /; git -C /repo worktree remove --force $WT; rm -rf $WT
 echo "SEED $ID: demo-clean-exit=$clean build-exit=$build demo-patched-exit=$patched existing-tests-exit=$suite components=[$(echo $comps)]" | tee -a $LOG
